@@ -420,6 +420,11 @@ again:
 	return 0;
 }
 
+static bool perf_is_sched_in(struct uftrace_perf_reader *perf)
+{
+	return perf->type == PERF_RECORD_SWITCH && !perf->u.ctxsw.out;
+}
+
 /**
  * read_perf_data - read perf event data
  * @handle: uftrace data file handle
@@ -448,7 +453,10 @@ int read_perf_data(struct uftrace_data *handle)
 				continue;
 		}
 
-		if (perf->time < min_time) {
+		if (perf->time < min_time ||
+		    (perf->time == min_time && best >= 0 && perf_is_sched_in(perf) &&
+		     !perf_is_sched_in(&handle->perf[best]))) {
+			/* among events of the same time a sched-in comes first (see __read_rstack) */
 			min_time = perf->time;
 			best = i;
 		}
